@@ -2,7 +2,7 @@
 reference enumeration; cyclic: termination + soundness)."""
 from ..core import STEPS, digest, canon_tree
 from ..common import build, call, basic_tokens, named_types
-from ..gram import RefGrammar, print_grammar, duplicate_empty_alternatives
+from ..gram import RefGrammar, print_grammar, duplicate_empty_alternatives, colliding_optionals
 from .. import ref as R, gen
 from .c01 import model as c01_model
 
@@ -194,6 +194,12 @@ def run_grammar(ctx, G, family, lexers, inputs, optsets):
     text = print_grammar(G)
     if duplicate_empty_alternatives(G):
         ctx.count('skipped-duplicate-empty-alternatives')
+        return
+    if colliding_optionals(G):
+        # two alternatives of one rule spell the same symbol sequence (a literal counts as the named terminal it coincides
+        # with): lark raises the documented "Rules defined twice" or silently keeps one of them - either way the set of
+        # derivations is not what the AST says, so tree-level oracles do not judge such grammars
+        ctx.count('skipped-colliding-alternatives')
         return
     rg = RefGrammar(G)
     cyclic = rg.is_cyclic()
